@@ -55,10 +55,11 @@ def lobato_numerators(a, b):
     return N, Nd
 
 
-def parametrization(name):
+def parametrization(name, table=None):
     import abtem.parametrizations as P
 
-    return {"lobato": P.LobatoParametrization, "kirkland": P.KirklandParametrization, "peng": P.PengParametrization}[name]()
+    cls = {"lobato": P.LobatoParametrization, "kirkland": P.KirklandParametrization, "peng": P.PengParametrization}[name]
+    return cls(table) if table else cls()
 
 
 class C25(Property):
@@ -207,7 +208,7 @@ class C25(Property):
     def oracle(self, ctx: Ctx, case):
         from abtem.core.constants import kappa
 
-        par = parametrization(case["parametrization"])
+        par = parametrization(case["parametrization"], case.get("table"))
         sym = case["symbol"]
         kind = case["check"]
         if kind == "signs":
@@ -269,11 +270,14 @@ class C25(Property):
 
     def conformance(self, ctx: Ctx):
         rng = ctx.rng
-        exc = {"peng": {"Ra"}}
-        for name, tbl in (("lobato", "lobato"), ("kirkland", "kirkland"), ("peng", "peng_high")):
-            syms = [s for s in load_exact(tbl) if s not in exc.get(name, ())]
-            for sym in (syms if ctx.thorough else rng.sample(syms, 30)):
+        # the Peng entries with one negative Gaussian weight are outside the theorems: always sampled here
+        always = {"peng_high": ["Ra"], "peng_low": ["Rb", "Np"]}
+        for name, tbl in (("lobato", "lobato"), ("kirkland", "kirkland"), ("peng", "peng_high"), ("peng", "peng_low")):
+            syms = list(load_exact(tbl))
+            for sym in (syms if ctx.thorough else rng.sample(syms, 30 if tbl != "peng_low" else 8) + always.get(tbl, [])):
                 case = dict(parametrization=name, symbol=sym, check="signs")
+                if tbl == "peng_low":
+                    case["table"] = "peng_low.json"
                 self.oracle(ctx, case)
                 ctx.count(f"signs:{name}")
                 ctx.case(case)
